@@ -309,6 +309,61 @@ theorem chain_converges_core (ps : List C01Chain.Party) (k0 : Core) (w : Ev) (T 
     ∀ p ∈ ps, core p.final.g = (w :: rest.map (·.1)).foldl coreStep k0 :=
   C01Chain.chain_converges_core ps k0 w T rest hmin hcross h
 
+open MdkVerif.Fork MdkVerif.Chain MdkVerif.Props.C01Fork in
+/-- frame on the consumed ratchet generations (for every state satisfying the snapshot invariant `ConsMono`) -/
+theorem consumed_frame (fuel nx : Nat) (c : Cl) (e : Ev) (h : ConsMono c) :
+    (∀ x ∈ (deliverN fuel nx c e).1.g.consumed, x ∈ c.g.consumed ∨ x = e.cipher) ∧ ConsMono (deliverN fuel nx c e).1 :=
+  C01Chain.consumed_frame fuel nx c e h
+
+open MdkVerif.Chain in
+theorem consMono_reachable (id : Nat) (p : Bool) (r : Nat) (ms as : List Nat) (name : Nat) (ops : List C08.COp) :
+    ConsMono (ops.foldl C08.cstep (initCl id p r ms as name)) :=
+  C01Chain.consMono_reachable id p r ms as name ops
+
+/-- … and not for every state -/
+theorem consumed_frame_needs_inv :
+    ¬ (∀ (c : Cl) (e : Ev) (nx : Nat), ∀ x ∈ (deliver c e nx).1.g.consumed, x ∈ c.g.consumed ∨ x = e.cipher) :=
+  C01Chain.consumed_frame_needs_inv
+
+open MdkVerif.Props.C01Fork in
+/-- an event created on a branch the client is not on is refused and changes nothing but its own record -/
+theorem stale_refused (c : Cl) (e : Ev) (nx : Nat) (hg : c.hasGroup = true) (hs : SecretsOK c.g)
+    (hst : ¬ e.path <+: c.g.path) :
+    proj (deliver c e nx).1 = proj c ∧
+    ((deliver c e nx).1.g = c.g ∨ (deliver c e nx).1.g = ensureSecret c.g) ∧
+    (deliver c e nx).1.mgr = c.mgr ∧
+    (∀ m, m ≠ e.n → getRec (deliver c e nx).1 m = getRec c m) ∧
+    (∃ r, getRec (deliver c e nx).1 e.n = some r ∧ (r.state = 3 ∨ r.state = 4)) ∧
+    ((deliver c e nx).2 = .unprocessable ∨ (deliver c e nx).2 = .err eMessage) :=
+  C01Chain.stale_refused c e nx hg hs hst
+
+open MdkVerif.Fork MdkVerif.Chain MdkVerif.Props.C01Fork in
+/-- the chain theorem with stale events interleaved freely inside every level's delivery list -/
+theorem chain_bystander_stale (c : Cl) (Ls : List Level) (ls : List (List Ev)) (nx : Nat)
+    (hg : c.hasGroup = true) (hr : 1 ≤ c.retention) (hsec : SecretsOK c.g) (hbelow : Below c)
+    (hch : ChainEv c.id c.g.admins c.g.path Ls)
+    (hu : ∀ e ∈ evs Ls, getRec c e.n = none ∧ e.cipher ∉ c.g.consumed)
+    (hw : LevelWiseS (evs Ls) c.g.path Ls ls) :
+    (run nx c ls.flatten).g.path = c.g.path ++ Ls.map (·.1.cipher) ∧
+    wc (run nx c ls.flatten).g [] = wc (chainG c.maxPast c.g (Ls.map (·.1))) [] ∧
+    (∀ L ∈ Ls, (getRec (run nx c ls.flatten) L.1.n).map (·.state) = some 2) ∧
+    (∀ L ∈ Ls, ∀ e ∈ L.2, e ≠ L.1 →
+      ∃ r, getRec (run nx c ls.flatten) e.n = some r ∧ (r.state = 3 ∨ r.state = 4)) :=
+  C01Chain.chain_bystander_stale c Ls ls nx hg hr hsec hbelow hch hu hw
+
+open MdkVerif.Fork MdkVerif.Chain MdkVerif.Props.C01Fork in
+/-- a rollback over two epochs (retention ≥ 2) -/
+theorem depth2_rollback (c : Cl) (a b a' : Ev) (nx : Nat)
+    (hg : c.hasGroup = true) (hr : 2 ≤ c.retention) (hsec : SecretsOK c.g) (hbelow : Below c)
+    (hS : Siblings c [a, b]) (hab : a ≠ b) (hlt : klt (key b) (key a) = true)
+    (hc : ChildOf c a a') (hn : a'.n ≠ a.n ∧ a'.n ≠ b.n) (hci : a'.cipher ≠ a.cipher) :
+    (run nx c [a, a', b]).g.path = c.g.path ++ [b.cipher] ∧
+    wc (run nx c [a, a', b]).g [] = wc (childG c b) [] ∧
+    (getRec (run nx c [a, a', b]) b.n).map (·.state) = some 2 ∧
+    (getRec (run nx c [a, a', b]) a.n).map (·.state) = some 4 ∧
+    (getRec (run nx c [a, a', b]) a'.n).map (·.state) = some 4 :=
+  C01Chain.depth2_rollback c a b a' nx hg hr hsec hbelow hS hab hlt hc hn hci
+
 /-- the level-by-level hypothesis is needed: convergence for every schedule is false of the code
     (`handshake-before-predecessor-blocked`) -/
 theorem chain_needs_level_by_level : ¬ C01Chain.C01_full := C01Chain.C01_full_false
